@@ -392,7 +392,7 @@ theorem diff_rejects_order (f : Fld) (ax order : Nat) (restrict : Bool) (ho : or
 theorem diff_cell (f g : Fld) (ax order : Nat) (restrict : Bool) (h : diff f ax order restrict = .ok g)
     (i : List Nat) (c : Nat) (hc : c < f.nvdim) :
     (g.data.get i).getD c 0
-      = (diffLine' (f.mesh.bc.toList.any fun ch => String.singleton ch == f.mesh.region.dims.getD ax "")
+      = (diffLine' (periodicBc f.mesh.bc (f.mesh.region.dims.getD ax ""))
           restrict order (f.mesh.cellAt ax) (lineCells f ax i c)).getD (i.getD ax 0) 0 := by
   unfold diff at h
   split at h
@@ -990,6 +990,61 @@ theorem diff_periodic_centred_d2 (f g : Fld) (ax : Nat) (h : diff f ax 2 true = 
   have hn : 0 < f.mesh.nAt ax := by omega
   rw [getD_tab _ _ _ _ (Nat.mod_lt _ hn), getD_tab _ _ _ _ (Nat.mod_lt _ hn), getD_tab _ _ _ _ (Nat.mod_lt _ hn)]
 
+/-! ## Which axes are periodic (repo fix 61bf94db)
+
+`Field.diff` takes a direction as periodic only if `mesh.bc` is not one of the words `neumann` /
+`dirichlet`, the direction's name is a single character and that character occurs in `bc`
+(`periodicBc`).  Before the fix the test was the substring test `direction in mesh.bc`. -/
+
+/-- **An axis is periodic exactly when `bc` is a list of axis letters that contains its name.** -/
+theorem periodicAx_iff (f : Fld) (ax : Nat) :
+    periodicAx f ax = true ↔ f.mesh.bc ≠ "neumann" ∧ f.mesh.bc ≠ "dirichlet" ∧
+      ∃ ch ∈ f.mesh.bc.toList, f.mesh.region.dims.getD ax "" = String.singleton ch := by
+  unfold periodicAx periodicBc
+  simp only [Bool.and_eq_true, Bool.not_eq_true', Bool.or_eq_false_iff, beq_eq_false_iff_ne, ne_eq, List.any_eq_true, beq_iff_eq]
+  constructor
+  · rintro ⟨⟨w1, w2⟩, ch, hm, he⟩
+    exact ⟨w1, w2, ch, hm, he.symm⟩
+  · rintro ⟨w1, w2, ch, hm, he⟩
+    exact ⟨⟨w1, w2⟩, ch, hm, he.symm⟩
+
+/-- **On a `neumann` or `dirichlet` mesh every axis is open, whatever its name** (also `n`, `e`, `u`,
+`ma`, … whose names are substrings of the word). -/
+theorem periodicAx_word_open (f : Fld) (ax : Nat) (h : f.mesh.bc = "neumann" ∨ f.mesh.bc = "dirichlet") :
+    periodicAx f ax = false := by
+  unfold periodicAx periodicBc
+  rcases h with h | h <;> rw [h] <;> simp
+
+/-- **An axis whose name is not a single character is never periodic**, whatever `bc` is (also when
+the name is a substring of `bc`, e.g. the axis `xy` of a mesh periodic along `x` and `y`). -/
+theorem periodicAx_multichar_open (f : Fld) (ax : Nat) (h : (f.mesh.region.dims.getD ax "").toList.length ≠ 1) :
+    periodicAx f ax = false := by
+  cases hp : periodicAx f ax with
+  | false => rfl
+  | true =>
+    obtain ⟨_, _, ch, _, he⟩ := (periodicAx_iff f ax).mp hp
+    rw [he, String.toList_singleton] at h
+    exact absurd rfl h
+
+/-- Hence on a `neumann` / `dirichlet` mesh `Field.diff` along EVERY axis stores the open-line spec
+(per-run one-sided / centred stencils, no wrap-around), whatever the axis is called. -/
+theorem diff_refines_spec_word (f g : Fld) (ax order : Nat) (h : diff f ax order true = .ok g)
+    (hw : f.mesh.bc = "neumann" ∨ f.mesh.bc = "dirichlet") (i : List Nat) (c : Nat) (hc : c < f.nvdim)
+    (hi : i.getD ax 0 < f.mesh.nAt ax) :
+    (g.data.get i).getD c 0
+      = diffSpec order (f.mesh.cellAt ax) (f.mesh.nAt ax) (fun j => (f.data.line ax i j).getD c 0)
+          (fun j => f.valid.line ax i j) (i.getD ax 0) :=
+  diff_refines_spec f g ax order h (periodicAx_word_open f ax hw) i c hc hi
+
+/-- … and likewise along every axis with a multi-character name on any mesh. -/
+theorem diff_refines_spec_multichar (f g : Fld) (ax order : Nat) (h : diff f ax order true = .ok g)
+    (hm : (f.mesh.region.dims.getD ax "").toList.length ≠ 1) (i : List Nat) (c : Nat) (hc : c < f.nvdim)
+    (hi : i.getD ax 0 < f.mesh.nAt ax) :
+    (g.data.get i).getD c 0
+      = diffSpec order (f.mesh.cellAt ax) (f.mesh.nAt ax) (fun j => (f.data.line ax i j).getD c 0)
+          (fun j => f.valid.line ax i j) (i.getD ax 0) :=
+  diff_refines_spec f g ax order h (periodicAx_multichar_open f ax hm) i c hc hi
+
 /-! ## Non-vacuity: concrete instances of the hypotheses -/
 
 /-- a 2-d field (5×2 cells, two components, one invalid cell, all directions open) whose derivative
@@ -1029,5 +1084,17 @@ example : ∃ g, diff exF 0 1 true = .ok g ∧ (g.data.get [1, 0]).getD 0 0 = 2 
   rw [this, hc]
   have h1 : runBefore (fun j => exF.valid.line 0 [1, 0] j) ([1, 0].getD 0 0) = 1 := by decide
   rw [h1]; norm_num
+
+/-- `periodicAx_word_open` / `diff_refines_spec_word`: on `exFN` (axes `n`, `y`, `bc = "neumann"`) the axis `n` is open
+although `"n"` is a substring of `"neumann"`, and the derivative along it exists -/
+example : exFN.mesh.bc = "neumann" ∧ exFN.mesh.region.dims = ["n", "y"] ∧ periodicAx exFN 0 = false ∧
+    ∃ g, diff exFN 0 1 true = .ok g :=
+  ⟨rfl, rfl, periodicAx_word_open exFN 0 (Or.inl rfl), ⟨_, rfl⟩⟩
+
+/-- `periodicAx_multichar_open` / `periodicAx_iff`: on `exFXY` (axes `x`, `y`, `xy`, `bc = "xy"`) the axes `x` and `y` are
+periodic, the axis `xy` is not -/
+example : periodicAx exFXY 0 = true ∧ periodicAx exFXY 1 = true ∧ periodicAx exFXY 2 = false ∧
+    (exFXY.mesh.region.dims.getD 2 "").toList.length ≠ 1 ∧ ∃ g, diff exFXY 2 1 true = .ok g :=
+  ⟨by decide, by decide, periodicAx_multichar_open exFXY 2 (by decide), by decide, ⟨_, rfl⟩⟩
 
 end DFV.C04
